@@ -265,7 +265,7 @@ def check_limits_and_range(ctx):
     sel_t = list(raw.columns[[8, 20, 35, 50, 65]])
     Kt = None
     wt_ = numpy.array([0.02, 0.01, 0.03, 0.015, 0.025])
-    for form in ('as written by pandas', 'labels padded on the right', 'labels padded on the left', 'labels in exponent notation', 'CRLF line ends', 'byte-order mark'):
+    for form in ('as written by pandas', 'header line padded on the right', 'labels padded on the right', 'labels padded on the left', 'labels in exponent notation', 'CRLF line ends', 'byte-order mark'):
         ft = os.path.join(d1, 'kernel_text_' + form.replace(' ', '_') + '.csv')
         sub_t = raw[sel_t]
         if form == 'labels in exponent notation':
@@ -274,6 +274,8 @@ def check_limits_and_range(ctx):
         lines = text.split('\n')
         if form == 'labels padded on the right':
             lines[0] = ','.join(cell + '  ' for cell in lines[0].split(','))
+        elif form == 'header line padded on the right':
+            lines[0] = lines[0] + '      '
         elif form == 'labels padded on the left':
             lines[0] = ','.join(('  ' + cell) if i_ else cell for i_, cell in enumerate(lines[0].split(',')))
         text = '\n'.join(lines)
